@@ -249,7 +249,8 @@ Definition seq_arun (f : node -> jstate -> option jstate) : list node -> jstate 
 
 (* The recogniser state after the node, whatever the data: text is run, an action is a hole of its static
    type, the two branches of an if must meet in one state, the body of a range must come back to the state
-   it started in (loop invariant: any number of iterations) and so must its else branch. *)
+   it started in (loop invariant: any number of iterations) and so must its else branch; the then-branch of an if
+   and the body of a with are walked with their guard fact (Tmpl.check_node). *)
 Fixpoint arun_node (sch : schema) (facts : list path) (dot : sty) (n : node) (st : jstate) {struct n}
   : option jstate :=
   match n with
@@ -264,7 +265,8 @@ Fixpoint arun_node (sch : schema) (facts : list path) (dot : sty) (n : node) (st
   | NIf p th el =>
       match ty_pipe sch facts dot p with
       | Some _ =>
-          match seq_arun (arun_node sch facts dot) th st, seq_arun (arun_node sch facts dot) el st with
+          match seq_arun (arun_node sch (guard_fact sch facts dot p ++ facts) dot) th st,
+                seq_arun (arun_node sch facts dot) el st with
           | Some a, Some b => join a b
           | _, _ => None
           end
@@ -280,6 +282,19 @@ Fixpoint arun_node (sch : schema) (facts : list path) (dot : sty) (n : node) (st
             | _, _ => None
             end
         | _ => None
+        end
+      else None
+  | NWith p body el =>
+      if pipe_safe p then
+        match ty_pipe sch facts dot p with
+        | Some t =>
+            if s_json t then None
+            else match seq_arun (arun_node sch (path_fact t ++ facts) t) body st,
+                       seq_arun (arun_node sch facts dot) el st with
+                 | Some a, Some b => join a b
+                 | _, _ => None
+                 end
+        | None => None
         end
       else None
   | NOther _ => None
